@@ -18,6 +18,9 @@
 #include "internal/ciftypes.h"
 #include "internal/utils.h"
 #define NSTMT 29
+#ifndef NROWS
+#define NROWS 2
+#endif
 static struct sqlite3 db, db2; static struct cif_s cif, cif2;
 static UChar CODE[3] = { 'A', 'b', 0 }, CODE_N[3] = { 'a', 'b', 0 };
 static UChar N1[3] = { '_', 'Q', 0 }, N1_N[3] = { '_', 'q', 0 }, N2[3] = { '_', 'r', 0 }, CAT[2] = { 'K', 0 }, EMPTY[1] = { 0 };
@@ -42,6 +45,10 @@ static int step_hook(sqlite3_stmt *s) {
             if (exp_cat ? !ueq(t, exp_cat) : (t != 0)) bad_cat = 1;
         }
     }
+#if FN == 14 || FN == 15
+    /* enumeration: the engine delivers NROWS rows and then reports the end (row count concrete per instance: it is the shape of the result) */
+    if (strncmp(s->sql, "select container_id as id, name, name_orig", 42) == 0) return (done_rows++ < NROWS) ? SQLITE_ROW : SQLITE_DONE;
+#endif
 #ifdef ROUTE
     /* route selection for cif_container_set_value: the look-up of the item's loop finds nothing (0: new scalar) or a row (1) */
     if (strncmp(s->sql, "select l.loop_num", 17) == 0 && ROUTE == 0) return SQLITE_DONE;
@@ -123,12 +130,42 @@ void harness(void) {
     rc = cif_loop_set_category(l, EMPTY);
     V_ASSERT(rc == CIF_RESERVED_LOOP && untouched(&db), "the scalar category cannot be given to a loop; the engine is not touched");
     rc = cif_loop_set_category(l, CAT); check_keys();
+    /* ... nor taken: a handle on the scalar loop (category "") refuses every change, to another category and to none */
+    { cif_loop_tp *sl = mk_loop(c); int steps0 = db.steps, mods0 = db.mods; sl->category = (UChar *) malloc(sizeof(UChar)); V_MALLOC_OK(sl->category); sl->category[0] = 0;
+      rc = cif_loop_set_category(sl, CAT);
+      V_ASSERT(rc == CIF_RESERVED_LOOP && db.steps == steps0 && db.mods == mods0, "the scalar loop's category cannot be replaced by another; nothing is executed");
+      rc = cif_loop_set_category(sl, NULL);
+      V_ASSERT(rc == CIF_RESERVED_LOOP && db.steps == steps0 && db.mods == mods0, "the scalar loop's category cannot be removed (set to none); nothing is executed");
+      V_ASSERT(sl->category != NULL && sl->category[0] == 0, "the handle still names the scalar category");
+      sl->container = NULL; cif_loop_free(sl); }
 #elif FN == 13     /* cif_container_get_category_loop */
     c = mk_container(); exp_cat = CAT;
     rc = cif_container_get_category_loop(c, CAT, &lout); check_keys();
     if (lout) cif_loop_free(lout);
     rc = cif_container_get_category_loop(c, NULL, &lout);
     V_ASSERT(rc == CIF_INVALID_CATEGORY, "a NULL category is refused with CIF_INVALID_CATEGORY");
+#elif FN == 14 || FN == 15     /* cif_get_all_blocks / cif_container_get_all_frames: every handle of the enumeration carries both spellings */
+    { cif_container_tp **all = NULL; int i;
+#if FN == 14
+      rc = cif_get_all_blocks(&cif, &all);
+#else
+      c = mk_container(); rc = cif_container_get_all_frames(c, &all);
+#endif
+      V_ASSERT(untouched(&db2) && !db.misuse, "nothing is executed on the connection of another managed CIF; the engine API is used within its contract");
+      if (rc == CIF_OK) {
+          V_ASSERT(all != NULL, "a successful enumeration delivers an array");
+          for (i = 0; i < NROWS; i++) {
+              V_ASSERT(all[i] != NULL, "one handle per row delivered by the engine");
+              if (all[i]) { V_ASSERT(ueq(all[i]->code, NAME_COL) && ueq(all[i]->code_orig, ORIG_COL), "enumerated handle: code from the `name` column, original spelling from the `name_orig` column");
+                            V_ASSERT(all[i]->cif == &cif, "enumerated handle belongs to the CIF enumerated");
+#if FN == 15
+                            V_ASSERT(all[i]->parent_id == c->id, "an enumerated frame records its parent");
+#endif
+                            cif_container_free(all[i]); }
+          }
+          V_ASSERT(all[NROWS] == NULL, "the array is NULL-terminated after the last row");
+          free(all); V_COVER_OPT("enumerated");
+      } }
 #elif FN == 20     /* screening: a representative invalid code / name (BADSEL, enumerated) is refused with the documented code
                       and nothing is executed; the validity predicate itself is decided for all strings in C09 */
     { static const UChar bad[6][3] = { { 0, 0, 0 }, { 'a', ' ', 0 }, { 'a', 0x7f, 0 }, { 0xd800, 'a', 0 }, { 'a', 0xfffe, 0 }, { '_', 0, 0 } };
